@@ -662,7 +662,7 @@ def check_memo_keys(ctx, rep, rule='C11.M', only=None):
                                 # (optimiser step + fire_parameter_changed) keeps the identity; `.shape` / `.dtype` / `len()` compare the metadata only
                                 if isinstance(x, ast.Compare) and any(isinstance(o, (ast.Eq, ast.NotEq)) for o in x.ops):
                                     sides = [x.left] + list(x.comparators)
-                                    if not any(isinstance(y, ast.Attribute) and y.attr in ('shape', 'dtype', 'device', 'ndim') for sd in sides for y in ast.walk(sd)) and \
+                                    if not any(isinstance(y, ast.Attribute) and y.attr in ('shape', 'dtype', 'device', 'ndim', 'requires_grad', 'is_leaf', 'grad_fn') for sd in sides for y in ast.walk(sd)) and \
                                             not any(isinstance(y, ast.Call) and isinstance(y.func, ast.Name) and y.func.id in ('len', 'type', 'id') for sd in sides for y in ast.walk(sd)):
                                         value_compared = True
                                 if isinstance(x, ast.Call) and (dotted_name(x.func) or '').split('.')[-1] in ('equal', 'allclose'):
